@@ -1,8 +1,14 @@
 -- Root of the `SqlglotModel` library: every property file (and through them every model and proof file).
 import SqlglotModel.Properties.C04
 import SqlglotModel.Properties.C06
+import SqlglotModel.Properties.C10
 import SqlglotModel.Properties.C11
 import SqlglotModel.Properties.C12
 import SqlglotModel.Properties.C13
+import SqlglotModel.Properties.C14
+import SqlglotModel.Properties.C15
+import SqlglotModel.Properties.C16
+import SqlglotModel.Properties.C17
 import SqlglotModel.Properties.C18
+import SqlglotModel.Properties.C19
 import SqlglotModel.Properties.C20
